@@ -4,7 +4,7 @@
      grid_2d_util.grid_2d_slim_from / grid_2d_native_from / convert_grid_2d,
      array_1d_util.* and mask_1d_util.native_index_for_slim_index_1d_from,
    polymorphic in the value type (no arithmetic on values is performed by the code except zeroing the
-   masked entries of a native input: `array[mask] = 0` since /repo e8113b3, "replace by zero").  No proofs here. *)
+   masked entries of a native input: `array[mask] = 0` since /repo e8113b3 / 6af65c9, "replace by zero").  No proofs here. *)
 From Coq Require Import List Arith Bool ZArith.
 From PAV Require Import Base.Res Base.Check.
 Import ListNotations.
@@ -69,7 +69,7 @@ Section Model.
   Definition native_from (m : mask) (s : list A) : grid :=
     via_indexes (length m) (width m) (native_for_slim m) s.
 
-  (* `array[mask] = 0` (was `array *= invert(mask)`; grids: fixes/C01_grid_nonfinite_masked.diff) *)
+  (* `array[mask] = 0` (was `array *= invert(mask)` before /repo e8113b3 / 6af65c9) *)
   Definition zero_masked (m : mask) (n : grid) : grid :=
     map (fun rv => map (fun bv : bool * A => if fst bv then zero else snd bv) (combine (fst rv) (snd rv)))
         (combine m n).
